@@ -370,7 +370,7 @@ class Runner:
                         if kind == "succeed":
                             tgt.succeed(f"s{pid}.{opi}")
                         else:
-                            tgt.fail(EXC[op[2]](f"f{pid}.{opi}"))
+                            tgt.fail(EXC[op[2]](f"f{pid}.{opi}", opi))
                         res = "ok"
                     except RuntimeError:
                         res = "RuntimeError"
@@ -458,7 +458,7 @@ class Runner:
             end = script["end"]
             if end and end[0] == "raise":
                 self._end(pid, "raise", None)
-                raise EXC[end[1]](f"end{pid}")
+                raise EXC[end[1]](f"end{pid}", pid)
             return self._end(pid, "ret", end[1] if end else None)
         except GeneratorExit:
             raise
